@@ -11,6 +11,7 @@ import (
 
 	logging "github.com/ipfs/go-log/v2"
 	"github.com/ipld/go-storethehash/store/types"
+	"github.com/ipld/go-storethehash/store/verifhook"
 )
 
 var log = logging.Logger("storethehash/index")
@@ -274,6 +275,7 @@ func (index *Index) truncateFreeFiles(ctx context.Context) (int64, int, error) {
 // are not referenced by a bucket, merging spans of deleted records, and
 // truncating deleted records from the end of the file.
 func (index *Index) reapIndexRecords(ctx context.Context, fileNum uint32, indexPath string) (bool, error) {
+	verifhook.Yield("index.gc.beforeReap")
 	fi, err := os.Stat(indexPath)
 	if err != nil {
 		return false, fmt.Errorf("cannot stat index file: %w", err)
